@@ -169,6 +169,10 @@ Proof. exact generated_shapes_tables_req. Qed.
 Theorem c04_modelled_functions_unchanged_tables_info : shapes_hold fn_shapes shapes_tables_info = true.
 Proof. exact generated_shapes_tables_info. Qed.
 
+(* the cargo features are independent switches with nothing on by default: a feature set of the model means exactly its cfgs *)
+Theorem c04_feature_table_unchanged : features_hold cargo_features = true.
+Proof. exact generated_features. Qed.
+
 Eval vm_compute in "ASSUMPTIONS c04_deterministic". Print Assumptions c04_deterministic.
 Eval vm_compute in "ASSUMPTIONS c04_skipper_total". Print Assumptions c04_skipper_total.
 Eval vm_compute in "ASSUMPTIONS c04_readers_total". Print Assumptions c04_readers_total.
@@ -191,3 +195,4 @@ Eval vm_compute in "ASSUMPTIONS c04_modelled_functions_unchanged_filters". Print
 Eval vm_compute in "ASSUMPTIONS c04_modelled_functions_unchanged_tables_op". Print Assumptions c04_modelled_functions_unchanged_tables_op.
 Eval vm_compute in "ASSUMPTIONS c04_modelled_functions_unchanged_tables_req". Print Assumptions c04_modelled_functions_unchanged_tables_req.
 Eval vm_compute in "ASSUMPTIONS c04_modelled_functions_unchanged_tables_info". Print Assumptions c04_modelled_functions_unchanged_tables_info.
+Eval vm_compute in "ASSUMPTIONS c04_feature_table_unchanged". Print Assumptions c04_feature_table_unchanged.
